@@ -1,5 +1,5 @@
 """C03 — Dataset containers stay coherent under any history of operations.
-Theorems: coq/props/C03_Properties.v (over coq/model/C03_Model.v).
+Theorems: coq/props/C03_Properties.v (over coq/model/C03_Model.v).  Audit: harness/props/C03.audit.md.
 Tie: operation sequences (corpus, bounded-exhaustive over an instantiated alphabet, seeded random
 to depth 12) are executed on real quantem Dataset objects and on the model; after every step
 the error class, class/shape/data/origin/sampling/units of the touched datasets and the aliasing
@@ -17,9 +17,11 @@ from .. import impl_C03 as M
 from ..common import VERIF, Ctx
 
 Q = Fraction
-UNITS = ["nm", "A", "mrad", "px", "s", "A^-1"]
-ORIG = [Q(0), Q(1), Q(-2), Q(1, 2), Q(-3, 4), Q(5), Q(3, 2), Q(10)]
-SAMP = [Q(1), Q(2), Q(1, 2), Q(1, 4), Q(3), Q(3, 2), Q(5, 4), Q(1, 8)]
+UNITS = ["nm", "A", "mrad", "px", "s", "A^-1", "", "a b"]
+ORIG = [Q(0), Q(1), Q(-2), Q(1, 2), Q(-3, 4), Q(5), Q(3, 2), Q(10), Q(1024), Q(-1, 1024)]
+SAMP = [Q(1), Q(2), Q(1, 2), Q(1, 4), Q(3), Q(3, 2), Q(5, 4), Q(1, 8), Q(100), Q(1, 1024)]
+DTS = ["i8", "f8", "f8", "f4", "c16", "i4", "c8"]
+PAD_KW = [{"mode": "edge"}, {"constant_values": 2}, {"mode": "wrap"}]
 
 
 # ------------------------------------------------------------------------------------------
@@ -28,34 +30,75 @@ SAMP = [Q(1), Q(2), Q(1, 2), Q(1, 4), Q(3), Q(3, 2), Q(5, 4), Q(1, 8)]
 
 def gen_shape(r, ndim, cap=120):
     for _ in range(50):
-        sh = [r.choice([1, 1, 2, 2, 2, 3, 3, 4, 5]) for _ in range(ndim)]
+        sh = [r.choice([1, 1, 2, 2, 2, 3, 3, 4, 5] + ([6, 8, 16] if ndim <= 2 else [])) for _ in range(ndim)]
         if int(np.prod(sh)) <= cap:
             return sh
     return [1] * ndim
 
 
-def gen_num(r, n, pool, wrong=0.08):
+def gen_num(r, n, pool, wrong=0.08, setter=False):
+    """origin / sampling argument: None (keyword omitted), scalar, list of the right (8%: wrong)
+    length; 12%: other spellings of the same thing (tuple, ndarray, NumPy scalar, nested list that
+    flattens to the right length) and malformed values (None, str, bool, dict, non-numeric or
+    ragged lists) whose error class the model predicts; 15% of the lists are integer-typed"""
     x = r.random()
-    if x < 0.35:
+    if x < 0.33 and not setter:
         return None
-    if x < 0.5:
+    if x < 0.48:
         return ["s", r.choice(pool)]
+    ints = [q for q in pool if q.denominator == 1]
+    pick = (lambda: r.choice(ints)) if r.random() < 0.15 else (lambda: r.choice(pool))
     ln = n if r.random() > wrong else max(0, n + r.choice([-1, 1]))
-    return ["l", [r.choice(pool) for _ in range(ln)]]
+    if x < (0.88 if setter else 0.95):
+        return ["l", [pick() for _ in range(ln)]]
+    y = r.random()
+    if y < 0.12:
+        return ["x", "tuple", [pick() for _ in range(ln)]]
+    if y < 0.24:
+        return ["x", "nd", [pick() for _ in range(ln)]]
+    if y < 0.34:
+        return ["x", "nps", pick()]
+    if y < 0.5:
+        rows = r.choice([1, ln]) if ln else 1
+        flat = [pick() for _ in range(ln)]
+        w = ln // rows if rows else 0
+        ll = [flat[i * w:(i + 1) * w] for i in range(rows)]
+        return ["x", r.choice(["nested", "nd2"]), ll]
+    if y < 0.6:
+        ll = [[pick() for _ in range(k)] for k in r.choice([[2, 1], [1, 2], [1, 2, 1], [n, max(0, n - 1)]])]
+        if len(set(len(row) for row in ll)) == 1:
+            ll[0] = ll[0] + [pick()]
+        return ["x", "nested", ll]                       # ragged
+    if y < 0.72:
+        return ["x", "nonnum", ln, r.randrange(4)]
+    if y < 0.8:
+        return ["x", "str"]
+    if y < 0.88:
+        return ["x", "bool"]
+    if y < 0.94 and setter:
+        return ["x", "none"]
+    return ["x", "other", r.randrange(4)]
 
 
-def gen_units(r, n, wrong=0.08):
+def gen_units(r, n, wrong=0.08, setter=False):
     x = r.random()
-    if x < 0.35:
+    if x < 0.33 and not setter:
         return None
-    if x < 0.5:
+    if x < 0.48:
         return ["s", r.choice(UNITS)]
     ln = n if r.random() > wrong else max(0, n + r.choice([-1, 1]))
-    return ["l", [r.choice(UNITS) for _ in range(ln)]]
+    if x < (0.88 if setter else 0.95):
+        return ["l", [r.choice(UNITS) for _ in range(ln)]]
+    y = r.random()
+    if y < 0.3:
+        return ["x", "tuple", [r.choice(UNITS) for _ in range(ln)]]
+    if y < 0.6:
+        return ["x", "ints", [r.randint(-3, 12) for _ in range(ln)]]
+    return ["x", "other", r.randrange(5 if setter else 4) + (0 if setter else 1)]
 
 
 def gen_from_array(r, counter, ndim=None, cls=None):
-    cls = cls or r.choice(["Generic", "Generic", "D2", "D3", "D4", "D4stem"])
+    cls = cls or r.choice(["Generic", "Generic", "D2", "D3", "D4", "D4stem", "D4stem"])
     k = {"D2": 2, "D3": 3, "D4": 4, "D4stem": 4}.get(cls)
     if ndim is None:
         if k is None:
@@ -63,9 +106,38 @@ def gen_from_array(r, counter, ndim=None, cls=None):
         else:
             ndim = k if r.random() < 0.8 else r.choice([k - 1, k - 1, k + 1])
     eff = ndim if k is None else max(k, ndim)
-    return {"k": "from_array", "cls": cls, "shape": gen_shape(r, ndim), "dt": r.choice(["i8", "f8", "f8", "f4", "c16"]),
-            "base": 10 * counter + 1, "origin": gen_num(r, eff, ORIG), "sampling": gen_num(r, eff, SAMP),
-            "units": gen_units(r, eff)}
+    op = {"k": "from_array", "cls": cls, "shape": gen_shape(r, ndim), "dt": r.choice(DTS),
+          "base": 10 * counter + 1, "origin": gen_num(r, eff, ORIG), "sampling": gen_num(r, eff, SAMP),
+          "units": gen_units(r, eff)}
+    if r.random() < 0.12:
+        op["aslist"] = True
+    return op
+
+
+def gen_from_shape(r, counter):
+    """Dataset2d/3d/4d/4dstem.from_shape (constant float32 array; wrong dimensionality 20%)"""
+    op = gen_from_array(r, counter, cls=r.choice(["D2", "D3", "D4", "D4stem"]))
+    op["k"] = "from_shape"
+    op["fill"] = r.choice([0, 0, 1, -2, 7])
+    del op["dt"], op["base"]
+    return op
+
+
+DET_Q = [Q(0), Q(1, 2), Q(1), Q(3, 2), Q(2), Q(-1, 2), Q(5, 2)]
+
+
+def gen_detector(r, n2, n3, mal):
+    x = r.random()
+    if mal:
+        if x < 0.5:
+            return ["bad", r.randrange(5)]
+        sh = r.choice([[n2 + 1, n3], [n3, n2 + 1], [n2 * n3], [n2, n3, 1]])
+        return ["mask", sh, [r.random() < 0.5 for _ in range(int(np.prod(sh)))]]
+    if x < 0.4:
+        return ["mask", [n2, n3], [r.random() < 0.5 for _ in range(n2 * n3)]]
+    if x < 0.7:
+        return ["circle", r.choice(DET_Q), r.choice(DET_Q), r.choice(DET_Q)]
+    return ["annular", r.choice(DET_Q), r.choice(DET_Q), r.choice(DET_Q), r.choice(DET_Q)]
 
 
 def gen_axes(r, n, malformed):
@@ -143,6 +215,14 @@ def gen_index(r, shape):
     return items
 
 
+def spell(r, op):
+    """25%: the same arguments of pad / crop / bin / fourier_resample written with NumPy scalars,
+    lists instead of tuples, or a float axis"""
+    if r.random() < 0.25:
+        op["aform"] = r.choice(["np", "list", "float"])
+    return op
+
+
 def gen_op(r, impl, counter, depth_left):
     live = impl.live
     cands = [i for i, d in enumerate(live) if d.array.ndim >= 1]
@@ -156,31 +236,49 @@ def gen_op(r, impl, counter, depth_left):
     mal = r.random() < 0.08
     kinds = (["getitem"] * 20 + ["pad"] * 7 + ["crop"] * 8 + ["bin"] * 8 + ["fourier"] * 6 + ["copy"] * 4 +
              ["set_origin"] * 3 + ["set_sampling"] * 3 + ["set_units"] * 3 + ["set_array"] * 3 +
-             ["set_array_from"] * 2 + ["from_ds"] * 2 + ["set_name"] + ["from_array"] * 2)
+             ["set_array_from"] * 2 + ["from_ds"] * 2 + ["set_name", "set_signal_units"] + ["from_array"] * 2 +
+             ["from_shape"])
+    cn = M.cls_name(d)
+    if cn == "D4stem":
+        kinds = kinds + ["dp"] * 8 + ["virt"] * 8
+    elif cn == "D3":
+        kinds = kinds + ["to_d2"] * 4
+    elif r.random() < 0.004:
+        kinds = ["dp", "virt"]                 # the methods do not exist there: AttributeError
     k = r.choice(kinds)
     if size > 300 and k in ("pad", "fourier"):
         k = r.choice(["crop", "bin", "getitem"])
     ip = r.random() < 0.5
     if k == "from_array":
         return gen_from_array(r, counter)
+    if k == "from_shape":
+        return gen_from_shape(r, counter)
     if k == "from_ds":
         return {"k": k, "cls": r.choice(["Generic", "D2", "D3", "D4", "D4stem", M.cls_name(d)]), "t": t}
-    if k in ("copy", "set_name"):
+    if k == "copy":
+        return {"k": k, "t": t, "cca": r.random() < 0.75}
+    if k == "to_d2":
         return {"k": k, "t": t}
+    if k in ("set_name", "set_signal_units"):
+        return {"k": k, "t": t, "val": r.randrange(len(M.NAME_VALUES))}
+    if k == "dp":
+        red = r.choice(["mean", "max", "median"])
+        if n == 4 and (shape[0] * shape[1] == 0 or (np.iscomplexobj(d.array) and red != "mean")):
+            red = "mean" if shape[0] * shape[1] else None     # NaN / complex ordering: not encoded
+        if red is None:
+            return {"k": "copy", "t": t}
+        return norm_dp(d, {"k": k, "t": t, "red": red, "how": r.choice(["get", "get", "attach", "prop"])})
+    if k == "virt":
+        n2, n3 = (shape[2], shape[3]) if n == 4 else (2, 2)
+        return {"k": k, "t": t, "det": gen_detector(r, n2, n3, mal), "attach": r.random() < 0.4}
     if k in ("set_origin", "set_sampling"):
-        v = None
-        while v is None:
-            v = gen_num(r, n, ORIG if k == "set_origin" else SAMP, wrong=0.15)
-        return {"k": k, "t": t, "v": v}
+        return {"k": k, "t": t, "v": gen_num(r, n, ORIG if k == "set_origin" else SAMP, wrong=0.15, setter=True)}
     if k == "set_units":
-        v = None
-        while v is None:
-            v = gen_units(r, n, wrong=0.15)
-        return {"k": k, "t": t, "v": v}
+        return {"k": k, "t": t, "v": gen_units(r, n, wrong=0.15, setter=True)}
     if k == "set_array":
         nd = n if r.random() < 0.75 else max(1, n + r.choice([-1, -1, 1]))
-        return {"k": k, "t": t, "shape": gen_shape(r, nd), "dt": r.choice(["i8", "f8", "f4", "c16"]),
-                "base": 10 * counter + 3}
+        return {"k": k, "t": t, "shape": gen_shape(r, nd), "dt": r.choice(DTS),
+                "base": 10 * counter + 3, "aslist": r.random() < 0.15}
     if k == "set_array_from":
         return {"k": k, "t": t, "src": r.choice(cands)}
     if k == "pad":
@@ -195,7 +293,7 @@ def gen_op(r, impl, counter, depth_left):
             spec = ["pairs", [[r.randint(0, 2), r.randint(0, 2)] for _ in range(n if r.random() < 0.85 else 1)]]
         else:
             spec = ["shape", [max(0, s + r.randint(-2, 3)) for s in shape]]
-        return {"k": k, "t": t, "spec": spec, "ip": ip}
+        return spell(r, {"k": k, "t": t, "spec": spec, "ip": ip})
     if k == "crop":
         ax = gen_axes(r, n, mal and r.random() < 0.6)
         na = n_axes(ax, n)
@@ -208,7 +306,7 @@ def gen_op(r, impl, counter, depth_left):
             b = r.randint(0, max(0, ln - 1))
             a = r.choice([0, 0, r.randint(b, ln + 1), -r.randint(0, 2)])
             w.append([b, a])
-        return {"k": k, "t": t, "w": w, "axes": ax, "ip": ip}
+        return spell(r, {"k": k, "t": t, "w": w, "axes": ax, "ip": ip})
     if k == "bin":
         ax = gen_axes(r, n, mal and r.random() < 0.6)
         na = n_axes(ax, n)
@@ -219,7 +317,8 @@ def gen_op(r, impl, counter, depth_left):
             f = r.choice([1, 2, 2, 3])
         else:
             f = [r.choice([1, 2, 2, 3, 4]) for _ in range(na)]
-        return {"k": k, "t": t, "f": f, "axes": ax, "mean": r.random() < 0.35, "ip": ip}
+        return spell(r, {"k": k, "t": t, "f": f, "axes": ax, "mean": r.random() < 0.35, "ip": ip,
+                         "rsp": r.choice([0, 0, 0, 1, 2])})
     if k == "fourier":
         ax = gen_axes(r, n, mal and r.random() < 0.5)
         na = n_axes(ax, n)
@@ -234,8 +333,12 @@ def gen_op(r, impl, counter, depth_left):
         else:
             spec = ["facs", [r.choice([Q(1, 2), Q(3, 2), Q(2), Q(1), Q(5, 2)]) for _ in range(
                 na if not (mal and r.random() < 0.4) else na + 1)]]
-        return {"k": k, "t": t, "spec": spec, "axes": ax, "ip": ip}
-    return {"k": "getitem", "t": t, "idx": gen_index(r, shape)}
+        return spell(r, {"k": k, "t": t, "spec": spec, "axes": ax, "ip": ip})
+    op = {"k": "getitem", "t": t, "idx": gen_index(r, shape)}
+    x = r.random()
+    if x < 0.3:
+        op["form"] = r.choice(["np", "tuple", "bare"])
+    return op
 
 
 # --- instantiated alphabet for the bounded-exhaustive part: each entry maps the current real
@@ -254,7 +357,7 @@ def _mk(kind, which=-1, **kw):
             op[k] = v(n, list(d.array.shape)) if callable(v) else v
         if kind == "set_array":
             op["base"] = 10 * counter + 3
-        return op
+        return norm_dp(d, op)
     f.label = "%s@%d %s" % (kind, which, {k: (v if not callable(v) else "f") for k, v in kw.items()})
     return f
 
@@ -308,8 +411,74 @@ def alphabet(full: bool):
             _mk("bin", f=3, axes=[-1], mean=False, ip=True),
             _mk("bin", f=[2, 1], axes=[0, 0], mean=False, ip=False),
             _mk("fourier", spec=["out", [3]], axes=[-1], ip=False),
+            # subclass-specific operations (an AttributeError where the class has no such method)
+            _mk("to_d2"),
+            _mk("dp", red="mean", how="get"),
+            _mk("dp", red="max", how="attach"),
+            _mk("dp", red="median", how="prop"),
+            _mk("virt", det=lambda n, sh: ["mask", sh[2:4] if n == 4 else [2, 2],
+                                           [(i % 3) != 1 for i in range(int(np.prod(sh[2:4])) if n == 4 else 4)]],
+                attach=True),
+            _mk("virt", det=["circle", Q(1), Q(1, 2), Q(1)], attach=False),
+            _mk("virt", det=["annular", Q(1), Q(1), Q(1, 2), Q(3, 2)], attach=True),
+            _mk("virt", det=["bad", 1], attach=False),
+            # unusual spellings and malformed setter arguments
+            _mk("set_origin", v=lambda n, sh: ["x", "nd", [Q(i) for i in range(n)]]),
+            _mk("set_origin", v=["x", "none"]),
+            _mk("set_sampling", v=lambda n, sh: ["x", "nested", [[Q(2)] * n]]),
+            _mk("set_sampling", v=["x", "str"]),
+            _mk("set_sampling", v=lambda n, sh: ["x", "nonnum", n, 1]),
+            _mk("set_units", v=["x", "other", 0]),
+            _mk("set_units", v=lambda n, sh: ["x", "ints", list(range(n))]),
+            _mk("set_signal_units", val=1),
+            _mk("copy", cca=False),
+            _mk("bin", f=2, axes=0, mean=True, ip=True, aform="np", rsp=1),
+            _mk("crop", w=[[1, 0]], axes=0, ip=False, aform="float"),
+            _mk("fourier", spec=["out", [2]], axes=[0], ip=True, aform="list"),
+            _mk("pad", spec=["pair", 1, 0], ip=True, aform="np"),
+            _mk("set_array", shape=lambda n, sh: [2] * n, dt="i4", aslist=True),
+            _mk("getitem", idx=[["i", -1], S_(None, None, -1)], form="np"),
+            _mk("getitem", idx=[["l", [0, -1]]], form="bare"),
         ]
     return A
+
+
+def norm_dp(d, op):
+    """keep a get_dp_* operation inside what is encoded: complex data only with the mean reducer
+    (NumPy orders complex numbers lexicographically), the cached property only when nothing is
+    attached (the attached state has its own oracle)"""
+    if op["k"] == "dp":
+        if d.array.ndim != 4 or (np.iscomplexobj(d.array) and op["red"] != "mean"):
+            op["red"] = "mean"
+        if op["how"] == "prop" and hasattr(d, "_dp_" + op["red"]):
+            op["how"] = "get"
+    return op
+
+
+# index sweep: Ellipsis in every position, negative steps, length-1 axes, 1..5 dimensions
+SWEEP_SHAPES = {1: [3], 2: [1, 3], 3: [2, 1, 3], 4: [2, 1, 1, 2], 5: [1, 2, 1, 2, 1]}
+SWEEP_ITEMS = [["i", 0], ["i", -1], ["s", None, None, -1], ["s", None, None, -2], ["s", 1, None, 2],
+               ["s", None, None, None], ["s", -1, None, -1], ["l", [0, -1]], ["l", [0]]]
+
+
+def sweep_indices(nd):
+    """every tuple of at most min(nd, 3) items, without and with an Ellipsis in every position
+    (also where it stands for no axis at all)"""
+    out = []
+    for m in range(0, min(nd, 3) + 1):
+        for combo in itertools.product(SWEEP_ITEMS, repeat=m):
+            out.append(list(combo))
+            for pos in range(m + 1):
+                out.append(list(combo[:pos]) + [["e"]] + list(combo[pos:]))
+    return out
+
+
+def sweep_seed(nd):
+    sh = SWEEP_SHAPES[nd]
+    cls = {2: "D2", 3: "D3", 4: "D4stem"}.get(nd, "Generic")
+    return {"k": "from_array", "cls": cls, "shape": sh, "dt": "i8", "base": 1,
+            "origin": ["l", [Q(i + 1) for i in range(nd)]], "sampling": ["l", [Q(1, i + 1) for i in range(nd)]],
+            "units": ["l", ["u%d" % i for i in range(nd)]]}
 
 
 SEEDS = [
@@ -324,6 +493,11 @@ SEEDS = [
      "origin": ["l", [Q(5), Q(-3, 4)]], "sampling": ["l", [Q(3), Q(5, 4)]], "units": ["l", ["px", "s"]]},
     {"k": "from_array", "cls": "Generic", "shape": [5], "dt": "f8", "base": 1,
      "origin": ["s", Q(1)], "sampling": ["s", Q(2)], "units": ["s", "s"]},
+    # integer-typed origin AND sampling arrays (int64): every flagged operation in both variants
+    {"k": "from_array", "cls": "D2", "shape": [4, 3], "dt": "i8", "base": 1,
+     "origin": ["l", [Q(2), Q(-1)]], "sampling": ["x", "nps", Q(3)], "units": ["x", "tuple", ["nm", "nm"]]},
+    {"k": "from_shape", "cls": "D4stem", "shape": [2, 3, 2, 2], "fill": 1,
+     "origin": ["x", "nd", [Q(0), Q(1), Q(2), Q(3)]], "sampling": ["s", Q(2)], "units": None},
 ]
 
 
@@ -335,14 +509,23 @@ def run_impl(makers, counter0=0):
     """makers: callables (impl, counter) -> op.  Returns the record of the run."""
     impl = M.Impl()
     ops, steps, bad = [], [], []
-    for si, mk in enumerate(makers):
-        op = mk(impl, counter0 + si)
-        if op is None:
-            break
+    queue = []
+    mi = 0
+    while queue or mi < len(makers):
+        if not queue:
+            op = makers[mi](impl, counter0 + mi)
+            mi += 1
+            if op is None:
+                break
+            queue = M.expand_op(impl, op)
+        op = queue.pop(0)
+        si = len(ops)
         ops.append(op)
         live_before = list(impl.live)
         snaps = [M.snapshot(d) for d in live_before]
         t = op.get("t")
+        cal = [np.asarray(live_before[t].origin).dtype.kind, np.asarray(live_before[t].sampling).dtype.kind] \
+            if t is not None else []
         src_obs = None
         if op["k"] == "getitem":
             src_obs = M.observe(live_before[t])
@@ -352,6 +535,10 @@ def run_impl(makers, counter0=0):
             v = M.oracle_inplace_eq_copy(live_before[t], op)
             if v:
                 bad.append((si, v[0], v[1]))
+            if op["k"] == "pad":      # further np.pad keyword arguments (oracle only)
+                v = M.oracle_inplace_eq_copy(live_before[t], op, PAD_KW[(si + len(op["spec"])) % len(PAD_KW)])
+                if v:
+                    bad.append((si, v[0], v[1]))
         err, new = impl.apply(op)
         in_place_target = t if (err is None and new is None and t is not None) else None
         # clause 3: the source (and every other live dataset) is bit-identical afterwards
@@ -380,7 +567,12 @@ def run_impl(makers, counter0=0):
                     np.asarray(s_.origin), np.asarray(c_.origin)) or np.shares_memory(
                     np.asarray(s_.sampling), np.asarray(c_.sampling)):
                 bad.append((si, "copy-aliases-source", "copy() of dataset %d shares memory with it" % t))
+        if op["k"] in ("dp", "virt") and err is None and new is not None:
+            v = M.oracle_reduction(live_before[t], op, impl.live[new])
+            if v:
+                bad.append((si, v[0], v[1]))
         steps.append({
+            "int_cal": "i" in cal or "u" in cal,
             "err": err, "new": new, "t": t,
             "t_obs": M.observe(impl.live[t]) if (t is not None and err is None) else None,
             "new_obs": M.observe(impl.live[new]) if new is not None else None,
@@ -499,7 +691,8 @@ def shrink(rec, si, key):
     """neutralise earlier operations that are not needed for the failure (handles stay valid)"""
     ops = list(rec["ops"][:si + 1])
     for j in range(len(ops) - 1):
-        if ops[j]["k"] in ("from_array", "from_ds", "copy", "getitem", "set_name"):
+        if ops[j]["k"] in ("from_array", "from_shape", "from_ds", "copy", "getitem", "set_name", "set_signal_units",
+                           "dp", "virt") or "t" not in ops[j]:
             continue
         if not ops[j].get("ip", True):
             continue
@@ -561,6 +754,18 @@ def account(ctx: Ctx, rec, kind):
             ctx.dist("index/%s%s" % (kinds or "empty", "/separated" if M.separated_advanced(op["idx"]) else ""))
         if st["err"] is None and st["t_obs"] is not None:
             ctx.dist("ndim/%d" % len(st["t_obs"]["shape"]))
+        if op["k"] in ("pad", "crop", "bin", "fourier") and st["int_cal"]:
+            ctx.dist("integer-typed-calibration/%s%s" % (op["k"], "/in_place" if op.get("ip") else ""))
+        if op.get("aform") or op.get("aslist") or op.get("cca") is False:
+            ctx.dist("argument-spelling/%s" % (op.get("aform") or ("array-like" if op.get("aslist") else "copy(False)")))
+        if op["k"] == "getitem" and (op.get("form") or op.get("via")):
+            ctx.dist("index-spelling/%s" % (op.get("form") or op.get("via")))
+        if op["k"] in ("dp", "virt"):
+            ctx.dist("4dstem/%s" % (op["red"] + "/" + op["how"] if op["k"] == "dp" else
+                                    op["det"][0] + ("/attach" if op["attach"] else "")))
+        for key in ("v", "origin", "sampling", "units"):
+            if isinstance(op.get(key), list) and op[key][0] == "x":
+                ctx.dist("argument-spelling/%s" % op[key][1])
     n_ok = sum(1 for st in rec["steps"] if st["err"] is None)
     key = json.dumps(M.jsonable(rec["ops"]), sort_keys=True, default=str)
     ctx.count((kind, key), nontrivial=n_ok >= 2 and len(rec["final"]) >= 2)
@@ -573,6 +778,21 @@ def corpus():
     return M.unjson(json.loads(p.read_text())) if p.exists() else []
 
 
+def hash_more(ctx: Ctx, rel, names):
+    """further anchored definitions: recorded like ctx.hash_sources; a definition the recorded
+    baseline does not know yet is not a drift"""
+    from ..common import SRC, _baseline_hashes, ast_hash
+    h = ast_hash(SRC / "quantem" / rel, names)
+    ctx.cov["source_ast_hashes"].setdefault(rel, {}).update(h)
+    base = _baseline_hashes().get(ctx.prop, {}).get(rel) or {}
+    changed = sorted(k for k in h if k in base and base[k] != h[k])
+    if changed:
+        ctx.escalated = True
+        ctx.cov.setdefault("drift", {}).setdefault(rel, [])
+        ctx.cov["drift"][rel] = sorted(set(ctx.cov["drift"][rel]) | set(changed))
+        ctx.log("drift guard: %s changed in %s -> quick budget escalated" % (changed[:6], rel))
+
+
 def run(ctx: Ctx):
     ctx.hash_sources("core/datastructures/dataset.py",
                      ["Dataset.__init__", "Dataset.from_array", "Dataset.copy", "Dataset.pad", "Dataset.crop",
@@ -581,19 +801,39 @@ def run(ctx: Ctx):
                  ("dataset4dstem.py", "Dataset4dstem")):
         ctx.hash_sources("core/datastructures/" + f, [c + ".from_array", c + ".__init__"])
     ctx.hash_sources("core/utils/validators.py", ["ensure_valid_array", "validate_ndinfo", "validate_units"])
+    hash_more(ctx, "core/datastructures/dataset.py", ["Dataset._copy_custom_attributes"])
+    hash_more(ctx, "core/datastructures/dataset2d.py", ["Dataset2d.from_shape"])
+    hash_more(ctx, "core/datastructures/dataset3d.py", ["Dataset3d.from_shape", "Dataset3d.to_dataset2d"])
+    hash_more(ctx, "core/datastructures/dataset4d.py", ["Dataset4d.from_shape"])
+    hash_more(ctx, "core/datastructures/dataset4dstem.py",
+              ["Dataset4dstem.get_dp_mean", "Dataset4dstem.get_dp_max", "Dataset4dstem.get_dp_median",
+               "Dataset4dstem.dp_mean", "Dataset4dstem.dp_max", "Dataset4dstem.dp_median",
+               "Dataset4dstem.get_virtual_image", "Dataset4dstem._create_circle_mask",
+               "Dataset4dstem._create_annular_mask", "Dataset4dstem.regenerate_virtual_images",
+               "Dataset4dstem.copy", "Dataset4dstem._copy_custom_attributes"])
     ctx.cov["rule"] = (
-        "a case is a sequence of Dataset operations (construction, copy, setters, pad/crop/bin/fourier_resample "
-        "in place or copying, indexing) executed on real objects and on the model: corpus sequences, all "
-        "sequences of length 2 (quick) / 3 (thorough: 30 operations on the 3-D seed = 27 000) over an "
-        "instantiated alphabet, every alphabet operation on 1-5-D seeds of every class, and seeded random sequences of length <= 12 generated against the live state (about 8% malformed "
-        "arguments); distinct by its operations, non-trivial when at least two operations succeed and at least "
-        "two datasets are alive at the end")
+        "a case is a sequence of Dataset operations (construction incl. from_shape, copy, setters with well- and "
+        "malformed arguments of every Python value kind, pad/crop/bin/fourier_resample in place or copying, "
+        "indexing, Dataset3d.to_dataset2d, Dataset4dstem.get_dp_mean/max/median and get_virtual_image) executed on "
+        "real objects and on the model: corpus sequences, all sequences of length 2 (quick) / 3 (thorough: 30 "
+        "operations on the 3-D seed = 27 000) over an instantiated alphabet, every alphabet operation on seven "
+        "1-5-D seeds of every class (one with integer-typed calibration), an index sweep (all tuples of <= 3 "
+        "items from 9, with an Ellipsis in every position, on 1-5-D datasets with length-1 axes; quick: a "
+        "seeded sample), and seeded random sequences of length <= 12 generated against the live state (about "
+        "8% malformed arguments); plus oracle-only cases of Dataset4dstem objects with attached datasets; "
+        "distinct by its operations, non-trivial when at least two operations succeed and at least two "
+        "datasets are alive at the end")
     ctx.assumptions += [
         "NumPy's own indexing, np.pad, np.sum and ndarray.base behave as modelled (np_index/pad_data/bin_axis; "
         "exercised by every correspondence run: data are distinct tokens, so any layout difference is seen)",
         "the Fourier kernel and the float division of the 'mean' reducer are outside the model: their outputs "
         "are handed to the model as a table (section parameters FR/divf of the theorems); values compared "
         "within 0.004 after such a transform, exactly otherwise",
+        "np.mean / np.max / np.median over the scan axes and np.sum(array * mask) behave as modelled "
+        "(reduce_dp / virtual_image); the circle / annulus masks are compared exactly (centres and radii on "
+        "a half-integer grid, where sqrt and <= are exact)",
+        "Dataset4dstem objects with attached datasets (attach=True, cached dp_* properties, virtual images) "
+        "are judged by the direct oracle only",
     ]
     ctx.cov["trusted_base"] += [
         "Coq 8.16.1 kernel incl. vm_compute (used to run the model); no native_compute",
@@ -618,11 +858,13 @@ def run(ctx: Ctx):
     # 2. bounded-exhaustive: every sequence of `depth` alphabet operations after a seed
     #    quick:    depth 2 over the 30-operation alphabet on the 3-D seed, every 5th one on the 4-D seed
     #    thorough: depth 3 over the 30-operation alphabet on the 3-D seed (27 000 sequences) and
-    #              depth 2 over the full 43-operation alphabet on three seeds
+    #              depth 2 over the full 61-operation alphabet on the 3-D and the 4dstem seed (every third
+    #              one on the 5-D seed)
     if ctx.quick:
         plans = [(2, alphabet(False), SEEDS[0], 1), (2, alphabet(False), SEEDS[1], 5)]
     else:
-        plans = [(3, alphabet(False), SEEDS[0], 1)] + [(2, alphabet(True), sd, 1) for sd in SEEDS[:3]]
+        plans = [(3, alphabet(False), SEEDS[0], 1)] + [(2, alphabet(True), sd, 1) for sd in SEEDS[:2]] + [
+            (2, alphabet(True), SEEDS[2], 3)]
     n_exh = nd = 0
     for depth, alpha, sd, stride in plans:
         recs = []
@@ -656,6 +898,39 @@ def run(ctx: Ctx):
         ", ".join("depth %d x %d ops%s" % (d, len(a), "" if st == 1 else " (every %d.)" % st) for d, a, _, st in plans),
         n_exh, nd))
 
+    # 2b. index sweep on datasets of every dimensionality with length-1 axes: Ellipsis in every
+    #     position, negative steps, lists next to / separated from integers (12 expressions per
+    #     sequence, all on the seed dataset); quick: a seeded sample, thorough: everything
+    recs = []
+    for nd in (1, 2, 3, 4, 5):
+        allidx = sweep_indices(nd)
+        if ctx.quick and len(allidx) > 70:
+            allidx = r.sample(allidx, 70)
+        elif len(allidx) > 3000:
+            allidx = r.sample(allidx, 3000)
+        forms = [None, None, "np", "tuple", "bare"]
+        for i in range(0, len(allidx), 12):
+            ops = [sweep_seed(nd)] + [dict({"k": "getitem", "t": 0, "idx": ix}, **(
+                {"form": f} if (f := forms[(i + j) % len(forms)]) else {})) for j, ix in enumerate(allidx[i:i + 12])]
+            rec = run_impl(fixed(ops))
+            account(ctx, rec, "index-sweep")
+            report_oracle(ctx, rec, "index sweep")
+            recs.append(rec)
+    nd_ = check_batch(ctx, "sweep", recs, "index sweep")
+    ctx.log("index sweep: %d sequences (%d index expressions), %d disagreements" % (
+        len(recs), sum(len(x["ops"]) - 1 for x in recs), nd_))
+
+    # 2c. Dataset4dstem with attached state (oracle only: the model has no attached datasets)
+    n_att = ctx.budget(25, 400)
+    for i in range(n_att):
+        seed_i = r.randrange(1 << 60)
+        bad, desc = M.oracle_attached(__import__("random").Random(seed_i))
+        ctx.count(("attached", i, json.dumps(desc, sort_keys=True)), nontrivial=True)
+        ctx.dist("sequences/4dstem-attached")
+        for key, what in bad:
+            ctx.violation(key, what, {"kind": "attached", "rng_seed": seed_i, "desc": desc})
+    ctx.log("4dstem attached-state oracle: %d cases" % n_att)
+
     # 3. random histories
     nseq = ctx.budget(120, 5000)
     recs = []
@@ -676,6 +951,14 @@ def run(ctx: Ctx):
 
 def replay(ctx: Ctx, path):
     rp = M.unjson(json.loads(open(path).read()))
+    if rp.get("kind") == "attached":
+        bad, desc = M.oracle_attached(__import__("random").Random(rp["rng_seed"]))
+        print("Dataset4dstem with attached datasets:", desc)
+        for key, what in bad:
+            print("oracle: [%s] %s" % (key, what))
+        if not bad:
+            print("oracle: property holds on this case")
+        return 1 if bad else 0
     if rp.get("kind") != "sequence":
         print("nothing to replay in %s (%s)" % (path, rp.get("what", "")))
         return 0
